@@ -51,6 +51,7 @@ class GeminiClient:
         tofu_db_path: Path | None = None,
         client_cert: Path | str | None = None,
         client_key: Path | str | None = None,
+        decode_bodies: bool = True,
     ):
         """Initialize the Gemini client.
 
@@ -69,8 +70,12 @@ class GeminiClient:
                 authentication with servers that require client certificates.
             client_key: Path to client private key file (PEM format). Required
                 if client_cert is provided.
+            decode_bodies: If True (default), text/* response bodies are decoded
+                to str using the declared charset. If False, all bodies are
+                returned as raw bytes, exactly as the server sent them.
         """
         self.timeout = timeout
+        self.decode_bodies = decode_bodies
         self.max_redirects = max_redirects
         self.verify_ssl = verify_ssl
         self.trust_on_first_use = trust_on_first_use
@@ -181,7 +186,9 @@ class GeminiClient:
 
         # Create protocol instance with normalized URL
         # Per spec: "client SHOULD add trailing '/' for empty paths"
-        protocol = GeminiClientProtocol(parsed.normalized, response_future)
+        protocol = GeminiClientProtocol(
+            parsed.normalized, response_future, decode_body=self.decode_bodies
+        )
 
         # Create connection using Protocol/Transport pattern
         try:
